@@ -471,3 +471,32 @@ Section Impl.
   Definition impl_parse_validate (f : forest) : vres :=
     vand (vall pchk f) (impl_validate (map mark_new f)).
 End Impl.
+
+(* ------------------------------------------------------------------------------------------- *)
+(* the RFC rule (group) an error class stands for, and what is reported for it                   *)
+(* ------------------------------------------------------------------------------------------- *)
+Definition class_ok (ty : sid -> bytes -> bool) (vs : vschema) (f : forest) (e : verr) : bool :=
+  match e with
+  | EFuel => true
+  | EType => rfc_types ty vs f
+  | EKey => rfc_keys vs f
+  | EDup => rfc_single vs f && rfc_keyuniq vs f && rfc_llval vs f
+  | EDupCase => rfc_case vs f
+  | ENoMand => rfc_mand vs f
+  | ENoMandChoice => rfc_mand_choice vs f
+  | ENoMin => rfc_min vs f
+  | ENoMax => rfc_max vs f
+  | ENoUniq => rfc_unique vs f
+  end.
+
+Definition all_classes : list verr :=
+  [EFuel; EType; EKey; EDup; EDupCase; ENoMand; ENoMandChoice; ENoMin; ENoMax; ENoUniq].
+
+(* (LY_ERR, LY_VECODE, error-app-tag) of a validation error: LY_EVALID = 7, LYVE_DATA = 9 (Gen/Consts.v: checked
+   against the headers by the correspondence run, which compares rc / vecode / app-tag of every rejected case) *)
+Definition report (e : verr) : N * N * bytes := (7, 9, apptag e).
+
+(* what a parser hands over (for a document without empty non-presence containers): no LYD_DEFAULT flag, every
+   non-presence container has a child; every node is flagged new (mark_new) *)
+Definition fresh (vs : vschema) (f : forest) : bool := nodflt f && no_empty_np vs f.
+
